@@ -90,7 +90,14 @@ def run(ctx):
                    '(summaries evaluated on {null,P,Q} x {owns, not})', minimum=8)
     rgc = ctx.rule('R-GUARDCALLS', 'Guard<M,Shared>: mode of every call into the mutex, state transition before the '
                    'call, TryLock resets on failure, Release never unlocks', minimum=8)
+    rla = ctx.rule('R-LOCKAPI', 'the public entry points do to the lock what their name says: guards built after an '
+                   'acquisition adopt, TryGuard tries; an unlock awaiter that reports ready has released the lock exactly '
+                   'once on that path and one that suspends has not (await_suspend hands it over); a lock awaiter calls '
+                   'the entry points of its own mode', minimum=20)
+    from rules import lib_lockapi
     for cfg, fb in sorted(fbs.items()):
+        if (ctx.guard(lambda: lib_lockapi.check_lock_api(ctx, fb, rla)) or 0) < 20:
+            ctx.guard(lambda: ctx.broken('R-LOCKAPI: lock / unlock awaiters and guard factories not instantiated in %s' % cfg))
         ctx.guard(lambda: lib_guard.check_guard_state(ctx, fb, rgs))
         ctx.guard(lambda: lib_guard.check_guard_calls(ctx, fb, rgc))
         ctx.guard(lambda: lib_order.check_cas_fresh(ctx, fb, rcf, lambda f: 'MutexImpl' in f.qn))
